@@ -327,6 +327,7 @@ pub fn gen_case(rng: &mut Rng, profile: Profile, thorough: bool, max_dim: u32) -
     let mut enc = EncOpts::default();
     enc.level = *rng.choose(&[0u8, 1, 6, 9]);
     enc.idat_parts = if rng.chance(1, 5) { rng.range(2, 4) as usize } else { 1 };
+    enc.empty_idat = if rng.chance(1, 8) { rng.below(16) as u8 } else { 0 };
     let input = img.encode_png(rng, &enc);
     let opts = gen_opts(rng, profile, thorough);
     Case {
